@@ -83,6 +83,7 @@ func (e *Exec) runPath(pkg *ssa.Package, fn *ssa.Function, prefix []Decision) (r
 	e.fsSeq = 0
 	e.fsModelOn = false
 	e.fsFaultBudget = -1
+	e.stubSeq = 0
 	e.callerLine = nil
 	e.fsStatDirs = false
 	e.fsFaultOps = nil
